@@ -164,6 +164,85 @@ def cache_variants(rng, opts, quick):
     return vs
 
 
+def alt_opts(rng, opts):
+    """Option maps whose digest must differ from that of `opts`: one option set to another printed value (falsy values
+    included), a default given explicitly, an explicitly given option removed.  (Same printed value with another type
+    is C20-F5 and is probed by `option-type` only.)"""
+    full = dict(DEFAULTS)
+    full.update(opts)
+    alts = []
+    pools = {"tolerance": [0, 0.0, full["tolerance"] + 0.25, 1e-9, None],
+             "fill_gaps": [False, 0, None, ""] if full["fill_gaps"] else [True, 1],
+             "fill_intersections": [False, 0, None, ""] if full["fill_intersections"] else [True, 1],
+             "elide_short_roads": [True, 1] if not full["elide_short_roads"] else [False, 0, None, ""],
+             "ref_points": [0, full["ref_points"] + 1, None]}
+    for k, pool in pools.items():
+        for v in pool:
+            if k in opts and str(v) == str(opts[k]):
+                continue
+            alts.append(dict(opts, **{k: v}))
+    for k in DEFAULTS:
+        if k not in opts:
+            alts.append(dict(opts, **{k: DEFAULTS[k]}))
+    for k in opts:
+        alts.append({a: b for a, b in opts.items() if a != k})
+    rng.shuffle(alts)
+    return alts
+
+
+def path_ops(rng, opts, size, quick):
+    """Histories on one directory for the entry paths of Network.fromFile (explicit .xodr, explicit .snet, no extension,
+    upper-case / unknown extension) x cache state (valid, absent, other version, truncated, options-digest byte flipped)
+    x map state (unchanged, changed, absent) x options (unchanged / changed, falsy values included) x useCache x writeCache.
+    State persists between the operations of a scene AND between scenes unless a scene sets it."""
+    alts = alt_opts(rng, opts)
+    alt = lambda: rng.choice(alts)   # noqa
+    L = lambda e, o=None, u=True, w=False: dict(op="load", entry=e, useCache=u, writeCache=w, opts=dict(opts if o is None else o))   # noqa
+    M = lambda to: dict(op="map", to=to)   # noqa
+    S = lambda to, **kw: dict(op="snet", to=to, **kw)   # noqa
+    big = size >= 1_100_000
+    scenes = []
+    for e in ("noext", "xodr"):
+        scenes.append([M("good"), S("good"), L(e, alt())])                         # stale by options
+        scenes.append([M(rng.choice(["changed", "changed2"])), S("good"), L(e)])   # stale by map
+        scenes.append([M("good"), S("optbyte"), L(e)])
+        scenes.append([M("good"), S("version"), L(e)])
+        scenes.append([M("good"), S("good"), L(e, alt(), u=False)])
+    scenes += [[M("absent"), S("absent"), L("noext")], [M("absent"), S("absent"), L("xodr")], [M("good"), S("absent"), L("snet")],
+               [M("good"), S("good"), L("upper")], [M("good"), S("good"), L("other", alt())],
+               [M("good"), S("truncate", len=rng.choice([0, 3, 50, 75, 76])), L("snet")],
+               [M("absent"), S("truncate", len=rng.choice([0, 3, 50, 75, 76])), L("noext")]]
+    if not big:   # scenes that really load a pickle or write one
+        for e in ("noext", "xodr"):
+            scenes.append([M("good"), S("good"), L(e), L(e, w=True)])
+            o2 = alt()
+            scenes.append([M("good"), S("absent"), L(e, w=True), L("noext"), L("xodr", o2), L("noext", o2, w=True), L("xodr", o2), L("noext")])
+            scenes.append([M("good"), S("absent"), L(e, w=False), L(e, u=False, w=True), L(e, u=False, w=True), L(e)])
+            scenes.append([M("good"), S("good"), M("changed"), L(e, w=True), L(e), M("good"), L(e), L(e, w=True), L(e)])
+        scenes.append([M("changed"), S("good"), L("snet", alt(), w=True)])
+        scenes.append([M("absent"), S("good"), L("noext", alt(), w=True), L("xodr")])
+        scenes.append([M("good"), S("truncate", len=400), L("noext", w=True), L("noext")])
+    core, rest = scenes[:10], scenes[10:]   # the stale-cache scenes (no pickle is loaded or written) run for every case
+    rng.shuffle(rest)
+    if quick and size >= 300_000:
+        rest = rest[:5 if big else 10]
+    scenes = core + rest
+    rng.shuffle(scenes)
+    ops = [o for sc in scenes for o in sc]
+    if size < 300_000:   # free-running history: no resets
+        cur_opts = [dict(opts)] + alts[:3]
+        for _ in range(14 if quick else 60):
+            r = rng.random()
+            if r < 0.15:
+                ops.append(M(rng.choice(["good", "changed", "changed2", "absent"])))
+            elif r < 0.25:
+                ops.append(S(rng.choice(["good", "absent", "version", "optbyte"])))
+            else:
+                ops.append(L(rng.choice(["noext", "noext", "xodr", "xodr", "snet", "upper"]), rng.choice(cur_opts),
+                             u=rng.random() < 0.8, w=rng.random() < 0.5))
+    return ops
+
+
 # ----------------------------------------------------------------------------- model mirrors (validated by the kernel)
 def py_str(v):
     """str(value) as CPython computes it for the option types (harness side; the implementation is not asked)."""
@@ -479,6 +558,7 @@ def judge(c, res):
             c.violation("cache-lookup", "the cached network answers a lookup differently from the parsed one",
                         dict(ident, point=a["p"], parsed=a["look"], cached=b["look"], dirs_parsed=a["dirs"], dirs_cached=b["dirs"]))
     # ---- cache protocol probes vs model
+    path_cases(c, res, ident)
     return cache_cases(c, res, ident)
 
 
@@ -618,6 +698,95 @@ def cache_cases(c, res, ident):
     return out
 
 
+PATH_TERMS = []   # (Gallina path_case, replay) of every load of every path history
+
+
+def entry_kind(path):
+    """Entry kind of a path as the documentation reads: the extension of the last component (harness-side rule)."""
+    name = os.path.basename(path)
+    i = name.rfind(".")
+    suffix = name[i:] if 0 < i < len(name) - 1 else ""
+    return {".xodr": "EXodr", ".snet": "ESnet", "": "ENoExt"}.get(suffix, "EOther")
+
+
+def canon_opts(o):
+    return json.dumps(sorted((k, type(v).__name__, repr(v)) for k, v in o.items()))
+
+
+def path_cases(c, res, ident):
+    """Judges the loads of the path history (property / documentation oracle) and emits one model case per load."""
+    recs = res.get("path_history") or []
+    cur = res["version"]
+    ops = res["job"].get("path_ops") or []
+    loads = [o for o in ops if o["op"] == "load"]
+    if len(recs) != len(loads):
+        c.violation("path-history", "the path history did not run to its end", dict(ident, loads=len(loads), records=len(recs)), no_input=True)
+        return
+    it = iter(recs)
+    snet_for = None          # (map digest, options) the present cache file is valid for, None: absent or invalid for everything
+    steps = []               # compact replay of the history so far
+    for op in ops:
+        if op["op"] == "map":
+            steps.append("map:" + op["to"])
+            continue
+        if op["op"] == "snet":
+            steps.append("snet:" + op["to"] + (str(op.get("len")) if "len" in op else ""))
+            snet_for = (res["map_digest"], canon_opts(res["opts"])) if op["to"] == "good" else None
+            continue
+        r = next(it)
+        o = op["opts"]
+        kind = entry_kind(r["path"])
+        steps.append(f"load:{r['path']}:u={int(op['useCache'])}:w={int(op['writeCache'])}:{json.dumps(o, sort_keys=True)}")
+        rep = dict(ident, history=steps[-12:], earlier_steps=max(0, len(steps) - 12), dir=r["dir"], path=r["path"], entry=kind, useCache=op["useCache"], writeCache=op["writeCache"],
+                   call_opts=o, outcome=r["outcome"], map_present=r["map_digest"] is not None, cache_present=r["snet_hdr"] is not None,
+                   cache_written=r["snet_changed"], cache_valid_for_this_load=None)
+        out = r["outcome"]
+        map_entry = kind in ("ENoExt", "EXodr")
+        c.hist(f"path-probe:{kind}:{'map' if r['map_digest'] else 'nomap'}:{'cache' if r['snet_hdr'] else 'nocache'}:{out}")
+        c.cov["disagreements_checked"] += 1
+        nontrivial = False
+        if map_entry and r["map_digest"] is not None:
+            valid = snet_for is not None and snet_for == (r["map_digest"], canon_opts(o)) and r["payload_ok"]
+            rep["cache_valid_for_this_load"] = valid
+            should = op["useCache"] and valid
+            nontrivial = r["snet_hdr"] is not None and not valid
+            if out.startswith("error"):
+                c.violation("cache-error", "Network.fromFile raised instead of falling back to the parser", rep)
+            elif (out == "cache") != should:
+                c.violation("cache-decision", ("the cache was ignored although map and options are unchanged" if should else
+                                               "a cache was returned although it does not belong to the current map and options"
+                                               if op["useCache"] else "a cache was returned although useCache=False"), rep)
+            if out == "parse" and not (r["ncalls"] == 1 and all(r["call_path_ok"]) and all(r["call_opts_ok"]) and r["ret_token"]):
+                c.violation("parser-args", "the parser did not run exactly once on the map with exactly the caller's options, or its network was not returned",
+                            dict(rep, ncalls=r["ncalls"], path_ok=r["call_path_ok"], opts_ok=r["call_opts_ok"], returned_parsed=r["ret_token"]))
+            if r["snet_changed"] != (out == "parse" and op["writeCache"]):
+                c.violation("cache-write", "the cache file was " + ("rewritten" if r["snet_changed"] else "not written") +
+                            " (it must be written exactly when the map was parsed with writeCache=True)", rep)
+        else:
+            want = None
+            if kind == "EOther":
+                want = "error:ValueError"
+            elif kind == "EXodr" or (kind == "ENoExt" and r["snet_hdr"] is None) or (kind == "ESnet" and r["snet_hdr"] is None):
+                want = "error:FileNotFoundError"
+            if want and out != want:
+                c.violation("path-error", f"documented outcome for this path is {want}", rep)
+            if r["snet_changed"] or r["ncalls"]:
+                c.violation("cache-write", "a load that cannot parse a map ran the parser or touched the cache file", dict(rep, ncalls=r["ncalls"]))
+        extra = [f for f in r["files"] if entry_kind(f) not in ("EXodr", "ESnet")]
+        if r["map_changed"] or extra:
+            c.violation("cache-write", "Network.fromFile changed the map file or created a file that is neither the map nor its cache", dict(rep, files=r["files"]))
+        if out == "parse" and r["snet_changed"]:
+            snet_for = (r["map_digest"], canon_opts(o))
+        c.count(("path", ident["map"], json.dumps(ident["opts"], sort_keys=True), len(steps), steps[-1]), nontrivial=nontrivial)
+        code = {"cache": 0, "parse": 2 if r["snet_changed"] else 1, "error:FileNotFoundError": 3, "error:ValueError": 4,
+                "error:UnpicklingError": 5}.get(out, 9)
+        ob = lambda h: "None" if h is None else "(Some " + coq_bytes(bytes.fromhex(h)) + ")"   # noqa
+        od = hashlib.blake2b(frame_bytes(o), digest_size=8).digest()
+        PATH_TERMS.append((f"({kind}, {'true' if op['useCache'] else 'false'}, {'true' if op['writeCache'] else 'false'}, {cur}%N, "
+                           f"{ob(r['map_digest'])}, {coq_bytes(od)}, {ob(r['snet_hdr'])}, {'true' if r['payload_ok'] else 'false'}, "
+                           f"{code}%N, {ob(r['snet_hdr_after'])})", rep))
+
+
 # ----------------------------------------------------------------------------- main
 def main():
     c = Check(PID, "translation_validation")
@@ -648,7 +817,8 @@ def main():
             jobs.append(dict(kind="export", name=name, map=p, map_orig=p, opts=opts, scratch=os.path.join(SCRATCH, name),
                              seed=rng.randrange(10 ** 9), npts=npts if size < 10 ** 6 or not quick else 120,
                              variants=cache_variants(rng, opts, quick) if (oi == 0 or not quick) else
-                             [v for i, v in enumerate(cache_variants(rng, opts, True)) if i < 3 or v["kind"].startswith("option")]))
+                             [v for i, v in enumerate(cache_variants(rng, opts, True)) if i < 3 or v["kind"].startswith("option")],
+                             path_ops=path_ops(rng, opts, size, quick) if (oi <= 1 or not quick) else []))
         nmut = (1 if size < 300_000 else 0) if quick else (6 if size < 10 ** 6 else 2)
         for mi in range(nmut):
             name = f"{base}__m{mi}"
@@ -691,6 +861,8 @@ def main():
     text = ("From Coq Require Import List Bool NArith.\nFrom Scenic Require Import C20.Network.\nImport ListNotations.\n"
             "Definition cc : list cache_case := [\n " + ";\n ".join(t for t, _ in cache_terms) + "].\n"
             "Definition cbad := Eval vm_compute in failing_idx cache_ok cc 0%N.\nPrint cbad.\n"
+            "Definition pc : list path_case := [\n " + ";\n ".join(t for t, _ in PATH_TERMS) + "].\n"
+            "Definition pbad := Eval vm_compute in failing_idx path_ok pc 0%N.\nPrint pbad.\n"
             "Definition fc : list (list (list byte * option (list byte)) * list byte) := [\n " + ";\n ".join(frames) + "].\n"
             "Definition fbad := Eval vm_compute in failing_idx frame_ok fc 0%N.\nPrint fbad.\n")
     ok, out = common.run_coq_cases("C20_Cache" + TAG, text, timeout=900)
@@ -698,6 +870,8 @@ def main():
         c.violation("kernel", "gen/C20_Cache.v does not check", dict(log=out[-2000:]), no_input=True)
     else:
         for name, items, what in (("cbad", cache_terms, "Network.fromFile's use-cache decision differs from the model's from_file"),
+                                  ("pbad", PATH_TERMS, "Network.fromFile's outcome for this entry path and directory state (which file is tried, which "
+                                                       "checks it gets, what is written) differs from the model's from_path"),
                                   ("fbad", None, "the harness' framing mirror differs from the model's frame")):
             m = re.search(rf"^{name} =\s*(.*?)\n\s*: ", out, flags=re.S | re.M)
             idxs = [int(x) for x in re.findall(r"(\d+)%N", m.group(1))] if m else None
@@ -706,10 +880,13 @@ def main():
                 continue
             c.cov["disagreements_checked"] += len(items) if items else len(frames)
             for i in idxs:
-                c.violation("cache-model" if items else "framing-model", what, items[i][1] if items else dict(case=frames[i]))
+                c.violation(("path-model" if name == "pbad" else "cache-model") if items else "framing-model", what,
+                            items[i][1] if items else dict(case=frames[i]))
     c.cov["cache_cases"] = len(cache_terms)
+    c.cov["path_cases"] = len(PATH_TERMS)
     c.cov["framing_cases"] = len(frames)
-    c.cov["timing"] = dict(impl_s=round(sum(r.get("impl_s", 0) for r in results), 1), coq_s=round(sum(r.get("coq_s", 0) for r in results), 1))
+    c.cov["timing"] = dict(path_history_s=round(sum(r.get("path_s", 0) for r in results), 1), parse_s=round(sum(r.get("parse_s", 0) for r in results), 1),
+                           impl_s=round(sum(r.get("impl_s", 0) for r in results), 1), coq_s=round(sum(r.get("coq_s", 0) for r in results), 1))
     c.cov["explanation"] = ("translation validation: the OpenDRIVE->network conversion is not modelled; its OUTPUT is validated per run by kernel-"
                             "evaluated certified checkers (proved sound in coq/C20/NetworkProofs.v) on the exported network, parsed and cached")
     c.assumptions += [
